@@ -181,6 +181,12 @@ def _skeleton_case(desc, private):
         if tree.density is not None:
             if tree.suffix == 'n':
                 E.eq('natural_density_tag', f.natural_density, tree.density.value, note=text)
+                # documented meaning of the n tag: density of the natural-abundance compound at the same cell volume
+                from .c12 import natural_counterpart_mass
+                from .c02 import oracle_mass
+                nat = sum(c * natural_counterpart_mass(a) for c, a in want_pairs)
+                act = sum(c * oracle_mass(a) for c, a in want_pairs)
+                E.eq('natural_density_tag_meaning', f.density * nat, tree.density.value * act, note=text)
             else:
                 E.eq('density_tag', f.density, tree.density.value, note=text)
         elif len(want) != 1:
